@@ -1,6 +1,6 @@
 (* C15 property theorems. Only statements closed by [exact lemma] and Print Assumptions. *)
 From V Require Import Common.Base C15.Names C15.Renamer C15.Spec
-  C15.NamesProofs C15.NumberProofs C15.SlotsProofs C15.MinifyProofs C15.ComposeProofs C15.ResolveProofs C15.ScopeBuild C15.ScopeProg C15.ScopeBuildProofs C15.ScopeResolveProofs C15.HoistedProofs.
+  C15.NamesProofs C15.NumberProofs C15.SlotsProofs C15.MinifyProofs C15.ComposeProofs C15.ResolveProofs C15.ScopeBuild C15.ScopeProg C15.ScopeBuildProofs C15.ScopeResolveProofs C15.MinifyResolveProofs C15.HoistedProofs.
 
 (* NumberToMinifiedName is injective for every alphabet without repeated characters *)
 Theorem minified_name_injective : forall m,
@@ -300,3 +300,22 @@ Print Assumptions resolution_preserved_wrapped_partial.
 Theorem hoisted_import_symbols_registered : hoisted_all_registered = true.
 Proof. exact hoisted_all_registered_true. Qed.
 Print Assumptions hoisted_import_symbols_registered.
+
+(* the MinifyRenamer instance of resolution_preserved_partial: for every program of
+   the binding-form AST, with the nested slots AssignNestedScopeSlots computes on its
+   forest and the whole minifier pipeline (any accumulation order, any alphabet
+   without repeated characters), every reference still finds the symbol the parser
+   bound it to under the minified names - provided every renamable declared symbol
+   was counted (has a slot), which is what the linker does for live declarations *)
+Theorem resolution_preserved_minify_partial : forall mf,
+  NoDup (m_head mf) -> NoDup (m_tail mf) -> 1 <= zlen (m_head mf) -> 2 <= zlen (m_tail mf) ->
+  forall prog fuel stable reserved pre groups,
+  let '(m, st) := parse_forest prog in
+  forall slots total m3,
+  AssignNestedScopeSlots st m = (slots, total) ->
+  minify_rename fuel st slots total stable reserved mf pre groups = Some m3 ->
+  incl (ComputeReservedNames st [m]) reserved ->
+  (forall r, In r (tree_decls m) -> sy_ns (getsym st r) <> NsPinned -> slot_of slots m3 r <> None) ->
+  Forall (ref_preserved_minify st slots m3) (parser_refs prog).
+Proof. exact resolution_preserved_minify_all. Qed.
+Print Assumptions resolution_preserved_minify_partial.
